@@ -18,6 +18,7 @@ from lib.vcommon import coq_list, coq_opt, coq_str, coq_z
 KINDS = ["SpikeThresh", "InitMembPotential", "SpecificCapacitance", "Resistivity"]
 DEFAULTS = {"soma": "soma_group", "axon": "axon_group", "dendrite": "dendrite_group"}
 DEFAULT_NAMES = ["all", "soma_group", "axon_group", "dendrite_group"]
+KNOWN_KEY = "C15:group-id-used-with-two-segment-types"
 USER_GROUPS = ["dend_1", "dend_2", "dend_10", "axon_1", "axon_2", "soma_0", "sec1", "sec2", "sec10", "apical", "basal", "g", "h"]
 
 
@@ -168,23 +169,23 @@ def q_op(o):
     k = o["op"]
     if k == "seg":
         return "(AddSegment %s %s %s %s %s %s %s %s %s %s)" % (
-            q_bool(o["prox"]), coq_opt(o["seg_id"], coq_z), coq_opt(o["name"], coq_str),
-            coq_opt(o["parent"], lambda n: "%d%%nat" % n), coq_z(o["frac"]), coq_opt(o["group"], coq_str),
-            q_bool(o["conv"]), coq_opt(o["ty"], coq_str), q_bool(o["reorder"]), q_bool(o["optimise"]))
+            q_bool(o["prox"]), coq_opt(o["seg_id"], coq_z), coq_opt(o["name"], q_s),
+            coq_opt(o["parent"], lambda n: "%d%%nat" % n), coq_z(o["frac"]), coq_opt(o["group"], q_s),
+            q_bool(o["conv"]), coq_opt(o["ty"], q_s), q_bool(o["reorder"]), q_bool(o["optimise"]))
     if k == "unbranched":
         return "(AddUnbranched %d%%nat %s %s %s %s %s %s %s)" % (
-            o["npoints"], coq_opt(o["parent"], lambda n: "%d%%nat" % n), coq_z(o["frac"]), coq_opt(o["group"], coq_str),
-            q_bool(o["conv"]), coq_opt(o["ty"], coq_str), q_bool(o["reorder"]), q_bool(o["optimise"]))
+            o["npoints"], coq_opt(o["parent"], lambda n: "%d%%nat" % n), coq_z(o["frac"]), coq_opt(o["group"], q_s),
+            q_bool(o["conv"]), coq_opt(o["ty"], q_s), q_bool(o["reorder"]), q_bool(o["optimise"]))
     if k == "group":
-        return "(AddSegmentGroup %s %s)" % (coq_str(o["id"]), coq_opt(o["nlex"], coq_str))
+        return "(AddSegmentGroup %s %s)" % (q_s(o["id"]), coq_opt(o["nlex"], q_s))
     if k == "ugroup":
-        return "(AddUnbranchedGroup %s)" % coq_str(o["id"])
+        return "(AddUnbranchedGroup %s)" % q_s(o["id"])
     if k == "reorder":
         return "Reorder"
     if k == "optimise":
         return "Optimise"
     if k == "prop":
-        return "(SetProp %s %s %s %s)" % (o["kind"], coq_z(o["v"]), q_bool(o["v"] < 100), coq_str(o["group"]))
+        return "(SetProp %s %s %s %s)" % (o["kind"], coq_z(o["v"]), q_bool(o["v"] < 100), q_s(o["group"]))
     raise ValueError(k)
 
 
@@ -193,10 +194,39 @@ ERR = {"DupId": "BDupId", "NoParent": "BNoParent", "Validation": "BValidation", 
        "Recursion": "BRecursion"}
 
 
+class Interner:
+    """repeated sub-terms (strings, segments, groups, whole states) become top-level Definitions:
+    parsing a string literal costs ~9 constructor nodes per character, and every recorded state
+    repeats almost all of the previous one"""
+
+    def __init__(self):
+        self.names = {}
+        self.defs = []
+
+    TYPES = {"ls": "list oseg", "lg": "list group", "lp": "list (pkind * Z * string)"}
+
+    def ref(self, term, prefix):
+        key = prefix + term
+        nm = self.names.get(key)
+        if nm is None:
+            nm = "%s%d" % (prefix, len(self.names))
+            self.names[key] = nm
+            ty = self.TYPES.get(prefix)
+            self.defs.append("Definition %s%s := %s." % (nm, " : " + ty if ty else "", term))
+        return nm
+
+
+INT = Interner()
+
+
+def q_s(s):
+    return INT.ref(coq_str(s), "s")
+
+
 def q_group(g):
     gid = g["id"] if g["id"] is not None else ""
-    return "(mkGroup %s %s %s %s)" % (coq_str(gid), coq_list([coq_z(m) for m in g["members"]]),
-                                      coq_list([coq_str(i) for i in g["includes"]]), coq_opt(g["nlex"], coq_str))
+    return INT.ref("(mkGroup %s %s %s %s)" % (q_s(gid), coq_list([coq_z(m) for m in g["members"]]),
+                                              coq_list([q_s(i) for i in g["includes"]]), coq_opt(g["nlex"], q_s)), "g")
 
 
 def q_state(st):
@@ -210,12 +240,13 @@ def q_state(st):
             p = "(Some (%s, %s))" % (coq_z(par), coq_z(-999))  # a fraction the model cannot produce
         if not isinstance(sid, int):
             sid = -999999
-        segs.append("(mkOSeg %s %s %s %s)" % (coq_z(sid), p, q_bool(prox), coq_str(name if name is not None else "<None>")))
+        segs.append(INT.ref("(mkOSeg %s %s %s %s)" % (coq_z(sid), p, q_bool(prox), q_s(name if name is not None else "<None>")), "e"))
     props = []
     for k in KINDS:
         for v, g in st["props"][k]:
-            props.append("(%s, %s, %s)" % (k, coq_z(v), coq_str(g)))
-    return "(OState %s %s %s)" % (coq_list(segs), coq_list([q_group(g) for g in st["groups"]]), coq_list(props))
+            props.append(INT.ref("(%s, %s, %s)" % (k, coq_z(v), q_s(g)), "p"))
+    return "(OState %s %s %s)" % (INT.ref(coq_list(segs), "ls"), INT.ref(coq_list([q_group(g) for g in st["groups"]]), "lg"),
+                                  INT.ref(coq_list(props), "lp"))
 
 
 def q_step(t):
@@ -244,8 +275,10 @@ HEADER = ("From Coq Require Import String List ZArith Bool.\nFrom LNML Require I
 
 
 def cases_v(cases, results):
+    global INT
+    INT = Interner()
     body = ";\n  ".join(q_case(c, r) for c, r in zip(cases, results))
-    return (HEADER + "Definition cases : list c15_case := [\n  " + body + "\n].\n"
+    return (HEADER + "\n".join(INT.defs) + "\nDefinition cases : list c15_case := [\n  " + body + "\n].\n"
             "Eval vm_compute in (mismatches15 true cases).\n"
             "Eval vm_compute in (mismatches15 false cases).\n"
             "Eval vm_compute in (model_counterexamples true cases).\n")
@@ -289,11 +322,12 @@ def discipline(tags, case):
         if g is None:
             continue
         if g in DEFAULT_NAMES:
+            # soma_group/axon_group/dendrite_group carry their type by name; 'all' carries none
             if not conv or (g != "all" and DEFAULTS.get(ty) != g):
-                return False, "C15:default-group-id-used-for-another-role"
+                return False, KNOWN_KEY
             continue
         if g in roles and roles[g] != (conv, ty):
-            return False, "C15:group-id-used-with-two-segment-types"
+            return False, KNOWN_KEY
         roles[g] = (conv, ty)
     return True, None
 
@@ -310,6 +344,11 @@ def predicate(case, res):
                 bad.append(("C15:duplicate-explicit-segment-id-accepted",
                             "add_segment(seg_id=%d) with that id in use did not raise ValueError" % o["seg_id"],
                             "ValueError", t.get("err", "returned normally")))
+        if "state" in t:
+            for g in t["state"]["groups"]:
+                if g["id"] in g["includes"]:
+                    bad.append(("C15:group-includes-itself", "group %r includes itself after %s" % (g["id"], json.dumps(o)[:120]),
+                                "no self include", g["includes"]))
         if t.get("err") == "Recursion":
             bad.append(("C15:builder-call-recursion-error", "a builder call raised RecursionError", "returns", "RecursionError"))
         if "state" in t:
@@ -452,7 +491,7 @@ def run(ck):
 
     any_bad = False
     v0 = True
-    chunk = 120
+    chunk = 240
     for k in range(0, len(cases), chunk):
         cs, rs = cases[k:k + chunk], results[k:k + chunk]
         ok, res, out = ck.coq_eval("Cases_C15_%d.v" % (k // chunk), cases_v(cs, rs), timeout=900)
@@ -520,7 +559,10 @@ def replay(ck, data):
         print(json.dumps(data, indent=1)[:4000])
         return 0
     r = ck.impl("c15_impl.py", {"cases": [case]}, timeout=120)["results"][0]
-    ok, res, out = ck.coq_eval("Replay_C15.v", HEADER + "Definition k := %s.\n" % q_case(case, r) +
+    global INT
+    INT = Interner()
+    kterm = q_case(case, r)
+    ok, res, out = ck.coq_eval("Replay_C15.v", HEADER + "\n".join(INT.defs) + "\nDefinition k := %s.\n" % kterm +
                                "Eval vm_compute in (trace true (k_ops k) (init_of (k_factory k))).\n"
                                "Eval vm_compute in (model_final true (k_ops k) (init_of (k_factory k))).\n"
                                "Eval vm_compute in (case15_ok true k).\n")
